@@ -462,6 +462,9 @@ class State:
         out = set()
         for v in self.cells.values():
             val_syms(v, out)
+        # elements already read in this state can be read again (element-read memo): their symbols are live
+        for _, ev in self.emem.values():
+            val_syms(ev, out)
         # close over definitions / conditionals
         work = list(out)
         while work:
